@@ -110,6 +110,30 @@ def mr_strand(eng, slot, item):
     return obs
 
 
+def mixed_elements(eng, axis=1):
+    """one elements dict that hides one item and renames another, the two referenced by different spellings, in both key orders"""
+    mr = ("mr", "m", 3, {})
+    cat = ("cat", "c", 2, {"missing_at": (1,)})
+    w = CellWorld(eng, [cat, mr] if axis == 1 else [mr, cat])
+    v = w.vars[axis if axis == 1 else 0]
+    v.item_aliases = list(ALIASES)
+    v.subvar_ids = list(SUBIDS)
+    dimkey = "columns_dimension" if axis == 1 else "rows_dimension"
+    base = _read(Cube(w.response(), transforms={dimkey: {"elements": {1: {"hide": True}, 3: {"name": "RENAMED"}}}}).partitions[0], WATCH)
+    obs = []
+    for a in spellings(0):
+        for b in spellings(2):
+            if type(a) is type(b) and not isinstance(a, str):
+                continue
+            for first in (0, 1):
+                items = [(a, {"hide": True}), (b, {"name": "RENAMED"})]
+                if first:
+                    items.reverse()
+                part = Cube(w.response(), transforms={dimkey: {"elements": dict(items)}}).partitions[0]
+                obs += _compare("hide by %r + rename by %r (order %d) vs by ids" % (a, b, first), _read(part, WATCH), base)
+    return obs
+
+
 STALE = ["zzz", 99, "99", "", -4, -1, "-1", -2, "-3", "3x", 3, "3", None]      # 3 == number of items on a 0-based dimension is covered by the fixture scenario
 
 
@@ -251,6 +275,8 @@ def specs(tier):
             add("mr columns %s item %d" % (slot, item), "mr_slice", dict(slot=slot, item=item, axis=1))
         add("mr rows %s item 1" % slot, "mr_slice", dict(slot=slot, item=1, axis=0))
         add("stale refs %s (mr columns)" % slot, "stale", dict(slot=slot, axis=1))
+    add("mr columns: hide and rename in one dict, mixed spellings", "mixed_elements", dict(axis=1))
+    add("mr rows: hide and rename in one dict, mixed spellings", "mixed_elements", dict(axis=0))
     for slot in ("hide", "rename", "explicit"):
         add("mr strand %s item 2" % slot, "mr_strand", dict(slot=slot, item=2))
         add("stale refs %s (mr rows)" % slot, "stale", dict(slot=slot, axis=0))
